@@ -1,5 +1,7 @@
 #!/bin/bash
-# selftest/seeded_all.sh [tier] — re-confirm every filed seeded change against the current checks; writes selftest/seeded_results.jsonl
+# selftest/seeded_all.sh [tier] [jobs] — re-confirm every filed seeded change against the current checks, oldest confirmation
+# first; appends one JSON line per change to selftest/seeded_results_<tier>.jsonl (tools/gen_catch_table.py takes the latest
+# line per change, and the confirmation recorded in meta.json for changes not re-run).
 cd "$(dirname "$0")/.."
-TIER="${1:-quick}"
-ls -d seeded/C*/ | xargs -P 4 -I{} bash -c 'd={}; p=$(basename $d | cut -d- -f1); x=$(python3 -c "import json,sys; print(\" \".join(json.load(open(sys.argv[1]+\"meta.json\")).get(\"extra_checks\",[])))" $d); ./selftest/seeded.sh $d x $p '"$TIER"' $x 2>/dev/null | sed "s#\"change\":\"[^\"]*\"#\"change\":\"$(basename $d)\"#"' | tee selftest/seeded_results_$TIER.jsonl
+TIER="${1:-quick}"; JOBS="${2:-4}"
+ls -dtr seeded/C*/ | xargs -P "$JOBS" -I{} bash -c 'd={}; p=$(basename $d | cut -d- -f1); x=$(python3 -c "import json,sys; print(\" \".join(json.load(open(sys.argv[1]+\"meta.json\")).get(\"extra_checks\",[])))" $d); ./selftest/seeded.sh $d x $p '"$TIER"' $x 2>/dev/null | grep -a "^{" | sed "s#\"change\":\"[^\"]*\"#\"change\":\"$(basename $d)\"#"' >> selftest/seeded_results_$TIER.jsonl
